@@ -1,6 +1,9 @@
 package main
 
 import (
+	"os/signal"
+	"sync"
+	"syscall"
 	"encoding/json"
 	"fmt"
 	"os"
@@ -9,7 +12,32 @@ import (
 	"strings"
 )
 
+// scratch directories of the running process, removed also when the process is told to stop
+var scratchMu sync.Mutex
+var scratchDirs = map[string]bool{}
+
+func registerScratch(d string) {
+	scratchMu.Lock()
+	scratchDirs[d] = true
+	scratchMu.Unlock()
+}
+
+func cleanScratchOnSignal() {
+	ch := make(chan os.Signal, 1)
+	signal.Notify(ch, syscall.SIGTERM, syscall.SIGINT, syscall.SIGHUP)
+	go func() {
+		<-ch
+		scratchMu.Lock()
+		for d := range scratchDirs {
+			os.RemoveAll(d)
+		}
+		scratchMu.Unlock()
+		os.Exit(3)
+	}()
+}
+
 func main() {
+	cleanScratchOnSignal()
 	if len(os.Args) < 2 {
 		fmt.Fprintln(os.Stderr, "usage: symgo run <pkg> <Harness> | check <ID> [--tier quick|thorough]")
 		os.Exit(2)
